@@ -141,6 +141,7 @@ def floors(tier):
          "ncon_cmd:resolve_bad_swaps_orders": 300 * k, "ncon_cmd:parity_sign": 300 * k, "ncon_cmd:parity_sign_odd": 60 * k,
          "ncon_cmd:jump_step1": 50 * k, "ncon_cmd:jump_step2": 50 * k, "ncon_via:einsum": 100 * k, "ncon_via:relabel": 100 * k,
          "ncon_swap_open_open": 10 * k, "ncon_swap_contracted_thirdparty": 60 * k,
+         "ncon_trace_shared_index_networks": 25 * k, "ncon_trace_shared_index_decided": 10 * k, "ncon_repeated_swap_networks": 8 * k,
          "reach:resolve_step1_jump": 10 * k, "reach:resolve_step2_jump": 10 * k, "reach:parity_sign_swap_gate": 10 * k,
          "fkron_calls": 1500 * k, "fkron_sign_sensitive": 200 * k, "fkron_order_sensitive_cases": 30 * k,
          "fkron_fermionic_cases": 60 * k, "fkron_bosonic_cases": 15 * k, "fkron_random_cases": 10 * k,
@@ -570,6 +571,13 @@ def gen_network(rng, nprng, sym, ferm, tier):
     maxlab = 5 if tier != "thorough" else rng.choice((5, 5, 5, 5, 6))
     maxrank = 4
     bonds = []
+    # "shared" mode: one tensor t0 carries a partial trace on leading legs and a later surviving leg x that is named in
+    # >= 2 swaps with legs of other tensors (the renumbering of swap records after a trace keeps the tensor id, so any
+    # aliasing between the records of different swaps shows up here and nowhere else)
+    shared = rng.random() < 0.3
+    t0 = rng.randrange(nt) if shared else None
+    if shared:
+        bonds.append((t0, t0))
     for i in range(1, nt):
         if rng.random() < 0.93:
             bonds.append((rng.randrange(i), i))
@@ -584,7 +592,7 @@ def gen_network(rng, nprng, sym, ferm, tier):
     kept = []
     for i, j in bonds:
         need = {i: 2} if i == j else {i: 1, j: 1}
-        if len(kept) < maxlab and all(deg[t] + c <= maxrank for t, c in need.items()):
+        if len(kept) < maxlab and all(deg[t] + c <= (3 if (shared and t == t0 and (i, j) != (t0, t0)) else maxrank) for t, c in need.items()):
             kept.append((i, j))
             for t, c in need.items():
                 deg[t] += c
@@ -596,6 +604,12 @@ def gen_network(rng, nprng, sym, ferm, tier):
         k = max(k, 1 if deg[t] == 0 else 0)
         k = min(k, maxrank - deg[t], 5 - tot) if deg[t] else max(1, min(k, maxrank))
         k = max(k, 0)
+        if shared:
+            if t == t0:
+                k = max(k, 4 - deg[t], 1 if rng.random() < 0.5 else 0)     # trace pair + x + at least one more surviving leg (rank 4 or 5)
+                k = min(k, 5 - deg[t])
+            else:
+                k = max(k, 1)                                              # every other tensor offers a leg for x to cross
         nopen.append(k)
         tot += k
     # slots
@@ -613,6 +627,16 @@ def gen_network(rng, nprng, sym, ferm, tier):
             slots[t].append((e, 0))
     for t in range(nt):
         rng.shuffle(slots[t])
+    ex = None
+    if shared:
+        # traced pair on leading positions (0,1) or (0,2), x on the last position with another surviving leg in between
+        loop = [sl for sl in slots[t0] if edges[sl[0]]["tens"] == (t0, t0)][:2]
+        rest = [sl for sl in slots[t0] if sl not in loop]
+        ex = rest[-1][0]
+        if len(rest) >= 2 and rng.random() < 0.3:
+            slots[t0] = [loop[0], rest[0], loop[1]] + rest[1:]
+        else:
+            slots[t0] = loop + rest
     # (legs are drawn after the swaps are chosen, see below)
     # labels
     nb = len(bonds)
@@ -633,6 +657,24 @@ def gen_network(rng, nprng, sym, ferm, tier):
     nsw = rng.choice((1, 1, 2, 2, 3) if tier != "thorough" else (1, 2, 2, 3, 3, 4))
     swaps, kinds = [], []
     ne = len(edges)
+    banned = set()
+    if shared:
+        banned = {e for e, ed in enumerate(edges) if ed["tens"] == (t0, t0)}
+        cand = [e for e, ed in enumerate(edges) if t0 not in ed["tens"]]
+        rng.shuffle(cand)
+        chosen, seen_t = [], set()
+        for e in cand:                      # prefer partners on different tensors
+            if not (set(edges[e]["tens"]) & seen_t):
+                chosen.append(e)
+                seen_t |= set(edges[e]["tens"])
+        chosen += [e for e in cand if e not in chosen]
+        for e in chosen[:rng.choice((2, 2, 3))]:
+            swaps.append((ex, e) if rng.random() < 0.5 else (e, ex))
+            kinds.append("shared_index_after_trace")
+        if swaps and rng.random() < 0.25:   # the same pair an even number of times in total (cancels)
+            swaps += [swaps[0], swaps[0]] if rng.random() < 0.5 else [swaps[-1][::-1], swaps[-1]]
+            kinds += ["duplicate", "duplicate"]
+        nsw = rng.choice((0, 0, 1))
     for _ in range(nsw):
         pair = None
         if ne < 2:
@@ -647,6 +689,8 @@ def gen_network(rng, nprng, sym, ferm, tier):
                     break
         if pair is None:
             pair = tuple(rng.sample(range(ne), 2))
+        if set(pair) & banned:
+            continue
         if rng.random() < 0.5:
             pair = (pair[1], pair[0])
         swaps.append(pair)
@@ -665,13 +709,15 @@ def gen_network(rng, nprng, sym, ferm, tier):
     # legs: swapped edges get (when the symmetry allows) a sector that is odd in a fermionic component, used as witness
     swapped = {e for pr in swaps for e in pr}
     mask = G.fmask(sym, ferm) if any(G.fmask(sym, ferm)) else G.fmask(sym, True)
+    small = {e for t in range(nt) if len(slots[t]) >= 5 for e, _ in slots[t]}      # rank-5 tensor: keep it below ~2000 elements
     for e, ed in enumerate(edges):
-        L = D.gen_leg(rng, sym, nsec=(2, 3) if rng.random() < 0.85 else (1, 2), dmax=2)
+        dm = 1 if e in small else 2
+        L = D.gen_leg(rng, sym, nsec=(2, 3) if rng.random() < 0.85 else (1, 2), dmax=dm)
         if e in swapped:
             for _ in range(6):
                 if any(odd(sym, t, mask) for t in L.ts):
                     break
-                L = D.gen_leg(rng, sym, nsec=(2, 3), dmax=2)
+                L = D.gen_leg(rng, sym, nsec=(2, 3), dmax=dm)
         ed["leg"] = L
         oddts = [t for t in L.ts if odd(sym, t, mask)]
         ed["witness"] = rng.choice(oddts) if (e in swapped and oddts and rng.random() < 0.8) else rng.choice(L.ts)
@@ -691,10 +737,34 @@ def gen_network(rng, nprng, sym, ferm, tier):
         net.inds.append(tuple(label[e] for e, _ in slots[t]))
         net.slot_edges.append([e for e, _ in slots[t]])
     net.swap_edges, net.swap_kinds = swaps, kinds
+    net.shared_mode = shared
     net.swap = [(label[a], label[b]) for a, b in swaps]
     net.conjs = [rng.randint(0, 1) for _ in range(nt)]
     net.out_legs = [edges[e]["leg"] for e in open_ids]
     return net
+
+
+def trace_shared_index(inds, swap):
+    """Structure on which in-place renumbering of swap records after a TRACE is delicate: a tensor with a partial trace,
+    a surviving leg of it that is named in >= 2 swaps whose other leg lives on another tensor, and - after removing the
+    traced legs once - still a traced position below that leg (so renumbering the same record twice moves it again)."""
+    import collections
+    where = collections.defaultdict(list)
+    for t, ind in enumerate(inds):
+        for lab in ind:
+            where[lab].append(t)
+    for t, ind in enumerate(inds):
+        traced = [p for p, lab in enumerate(ind) if ind.count(lab) == 2]
+        if not traced:
+            continue
+        for p, lab in enumerate(ind):
+            if p in traced:
+                continue
+            n = sum(1 for a, b in swap if (a == lab and t not in where[b]) or (b == lab and t not in where[a]))
+            p1 = p - sum(q < p for q in traced)
+            if n >= 2 and any(q < p1 for q in traced):
+                return True
+    return False
 
 
 def net_oracle(net, sym, ferm, with_signs=True):
@@ -1017,6 +1087,14 @@ def ncon_case(ctx, idx, k):
     ctx.count("ncon_labels:%d" % m)
     if sampled:
         ctx.count("ncon_orders_sampled_networks")
+    if net.shared_mode:
+        ctx.count("ncon_shared_mode_networks")
+    if trace_shared_index(net.inds, net.swap):
+        ctx.count("ncon_trace_shared_index_networks")
+        if accepted and sensitive:
+            ctx.count("ncon_trace_shared_index_decided")      # some order returned a value and the signs matter
+    if len({frozenset(sw) for sw in net.swap}) < len(net.swap):
+        ctx.count("ncon_repeated_swap_networks")
     if sensitive:
         ctx.count("ncon_sign_sensitive_networks")
     if nonzero:
